@@ -81,6 +81,8 @@ def lib_call(fn, *a, **kw):
     except Exception as e:  # noqa
         if type(e).__name__ == "NonFinite":      # harness signal (float overflow), not a library outcome
             raise
+        if isinstance(e, NameError) and not any("pddl_plus_parser" in fs.filename for fs in traceback.extract_tb(e.__traceback__)):
+            raise                                  # an undefined name in the harness's own code is a harness bug, not an outcome
         return False, LibError(e)
 
 
